@@ -122,6 +122,24 @@ type Batch struct {
 	Serial bool
 	// MaxShrink overrides the number of shrink attempts.
 	MaxShrink int
+
+	// Isolated runs execute in child processes (see isolate.go).
+	Isolated bool
+	// PerProc is the number of consecutive runs per child process (default 1).
+	PerProc int
+	// Workers is the number of concurrent children (default 16).
+	Workers int
+	// Env is added to the children's environment.
+	Env []string
+	// ChildTimeout bounds one child process (default 120 s).
+	ChildTimeout time.Duration
+	// TimeoutIsViolation makes a child that exceeds ChildTimeout a violation
+	// instead of infrastructure trouble.
+	TimeoutIsViolation bool
+	// ChildInit runs once in every child before its first run.
+	ChildInit func()
+	// ClassifyAbort maps a dead child (exit code, stderr) to an outcome.
+	ClassifyAbort func(exit int, stderr string) *Outcome
 }
 
 // Check is the complete check of one property.
@@ -226,6 +244,10 @@ func (ck *Check) Main(args []string) {
 	if len(args) >= 2 && args[0] == "replay" {
 		os.Exit(ck.replay(args[1]))
 	}
+	if len(args) >= 4 && (args[0] == "child" || args[0] == "childtape") {
+		ck.ChildMain(args)
+		os.Exit(0)
+	}
 	tier := "quick"
 	if len(args) >= 1 {
 		tier = args[0]
@@ -269,6 +291,7 @@ func (ck *Check) Main(args []string) {
 	exhaustive := true
 	anyEnum := false
 	perBatch := map[string]any{}
+	infraFail := false
 
 	for _, b := range ck.Batches {
 		n := b.Quick
@@ -282,6 +305,24 @@ func (ck *Check) Main(args []string) {
 			anyEnum = true
 		}
 		if n <= 0 {
+			continue
+		}
+		if b.Isolated {
+			bstart := time.Now()
+			vs, done, infra := ck.runIsolated(b, seed, tier, n, known, knownHit, total)
+			evals += done
+			perBatch[b.Name] = map[string]any{"runs": done, "planned": n, "enumerated": b.Enumerated, "isolated_processes": true, "wall_s": round3(time.Since(bstart).Seconds())}
+			if int(done) < n {
+				exhaustive = false
+			}
+			if infra > 0 {
+				infraFail = true
+				break
+			}
+			viols = append(viols, vs...)
+			if len(viols) > 0 {
+				break
+			}
 			continue
 		}
 		workers := runtime.NumCPU()
@@ -393,6 +434,10 @@ func (ck *Check) Main(args []string) {
 		fmt.Fprintln(os.Stderr, "cannot write evidence:", err)
 		os.Exit(2)
 	}
+	if infraFail && code == 0 {
+		fmt.Fprintln(os.Stderr, "infrastructure failure in an isolated batch")
+		code = 2
+	}
 	// reach probes: a blind workload must not pass silently
 	if code == 0 && tier == "thorough" && scale >= 1 {
 		for _, p := range ck.Probes {
@@ -423,6 +468,9 @@ func writeJSON(path string, v any) error {
 
 func (ck *Check) report(v viol, seed uint64, tier string) string {
 	b := v.batch
+	if b.Isolated {
+		return ck.reportIsolated(v, seed, tier)
+	}
 	fails := func(vals []uint32) bool {
 		out := safeRun(b, &RunCtx{T: ReplayTape(vals), Index: v.run, Tier: tier})
 		return out != nil && out.Class == v.out.Class
@@ -488,7 +536,17 @@ func (ck *Check) replay(path string) int {
 		if b.Name != rf.Batch {
 			continue
 		}
-		out := safeRun(b, &RunCtx{T: ReplayTape(rf.Tape), Index: rf.Run, Tier: rf.Tier, Explain: true})
+		var out *Outcome
+		if b.Isolated {
+			var ok bool
+			out, _, ok = ck.runTapeIsolated(b, rf.Seed, rf.Tier, rf.Run, rf.Tape, true)
+			if !ok {
+				fmt.Fprintln(os.Stderr, "replay: child gave no verdict")
+				return 2
+			}
+		} else {
+			out = safeRun(b, &RunCtx{T: ReplayTape(rf.Tape), Index: rf.Run, Tier: rf.Tier, Explain: true})
+		}
 		if out == nil {
 			fmt.Printf("replay %s: property held (no violation)\n", path)
 			return 0
@@ -507,4 +565,49 @@ func (ck *Check) replay(path string) int {
 	}
 	fmt.Fprintln(os.Stderr, "unknown batch", rf.Batch)
 	return 2
+}
+
+func (ck *Check) reportIsolated(v viol, seed uint64, tier string) string {
+	b := v.batch
+	tape := v.tape
+	if tape == nil {
+		tape = RawTape(Mix(seed, ck.Prop+"/"+b.Name, uint64(v.run)), 1<<15)
+	}
+	fails := func(vals []uint32) bool {
+		out, _, ok := ck.runTapeIsolated(b, seed, tier, v.run, vals, false)
+		return ok && out != nil && out.Class == v.out.Class
+	}
+	max := b.MaxShrink
+	if max == 0 {
+		max = 200
+	}
+	small := tape
+	reproduced := fails(tape)
+	if reproduced {
+		small = Shrink(tape, fails, max)
+	} else {
+		fmt.Fprintln(os.Stderr, "warning: violation did not reproduce in a fresh process from its tape; reporting unshrunk")
+	}
+	out, rec, ok := ck.runTapeIsolated(b, seed, tier, v.run, small, true)
+	if !ok || out == nil || out.Class != v.out.Class {
+		out, rec = v.out, tape
+	}
+	if rec == nil {
+		rec = small
+	}
+	rf := ReplayFile{Property: ck.Prop, Harness: ck.Harness, Batch: b.Name, Seed: seed, Run: v.run, Tier: tier,
+		Tape: trimZeros(rec), Build: os.Getenv("VERIF_BUILD"), Outcome: out}
+	if len(tape) <= 4096 {
+		rf.Unshrunk = tape
+	}
+	dir := os.Getenv("VERIF_REPLAY_DIR")
+	if dir == "" {
+		dir = filepath.Join(VerifDir(), "replays")
+	}
+	path := filepath.Join(dir, fmt.Sprintf("%s-%s-%d-%d.json", ck.Prop, b.Name, seed, v.run))
+	if err := writeJSON(path, rf); err != nil {
+		fmt.Fprintln(os.Stderr, "cannot write replay:", err)
+	}
+	fmt.Printf("violation class=%s batch=%s run=%d reproduced_in_fresh_process=%v: %s\n", out.Class, b.Name, v.run, reproduced, out.Detail)
+	return path
 }
